@@ -10,6 +10,7 @@ To wire into props/C05.py:
     COQ_TARGETS = COQ_TARGETS + sr.COQ_TARGETS
     PROPS_FILES = PROPS_FILES + sr.PROPS_FILES          # optional: counts the soundness theorems
     classify = sr.wrap_classify(classify); violates = sr.wrap_violates(violates)
+    impl_violation = sr.wrap_impl_violation(impl_violation)   # C05's own predicate parses its own case syntax
 """
 NAME = "spec-independent"
 RUN = dict(name=NAME, harness="c05s", driver="spec", model_ml="spec_model", driver_args=["c05"])
@@ -68,4 +69,10 @@ def wrap_classify(prev):
 def wrap_violates(prev):
     def f(run, case, impl, model):
         return violates(run, case, impl, model) if run == NAME else prev(run, case, impl, model)
+    return f
+
+
+def wrap_impl_violation(prev):
+    def f(run, case, impl):
+        return False if run == NAME else prev(run, case, impl)
     return f
